@@ -289,6 +289,9 @@ def audit_invocation(rec, sb, work, descr, key, call, out_abs, reader, nontrivia
             probs.append(f"input {os.path.basename(p)} {x}")
     for ev, ap, raw in evs:
         if fsaudit.under(ap, sb.root) and any(fsaudit.under(ap, i) for i in sb.inputs):
+            if ev == "open-readwrite":
+                rec.count("inputs_opened_readwrite")      # harmless unless the snapshot shows a change
+                continue
             probs.append(f"write-class event inside an input: {ev} {os.path.relpath(ap, sb.root)}")
     after = fsaudit.listing(sb.root)
     new = [p for p in after if p not in before or after[p] != before[p]]
